@@ -105,7 +105,9 @@ def pause_ladder(chk: Check) -> None:
             chk.ob('GUARD-pause-ladder', pause, is_none(fs, PAUSED) and truthy(fs, STEPPING) and falsy(fs, PAUSING),
                    'a pause is deferred only when not paused, not already pausing and a step is in flight', node=c, kind='deferred:ladder')
         set_node = cfg.nodes_containing(c)[0]
-        alias = [m for m in cfg.nodes if m.kind == 'stmt' and isinstance(m.ast, ast.Assign) and norm(m.ast.targets[0]) == PAUSING and norm(strip_cast(m.ast.value)) == IA]
+        from ..rules import setter_returns_installed_action
+        alias = [m for m in cfg.nodes if m.kind == 'stmt' and isinstance(m.ast, ast.Assign) and norm(m.ast.targets[0]) == PAUSING
+                 and (norm(strip_cast(m.ast.value)) == IA or (setter_returns_installed_action(prog) and strip_cast(m.ast.value) is c))]
         ok = bool(alias) and cfg.must_pass(set_node, [cfg.exit], lambda m: m in alias, edge_ok=no_exc)
         chk.ob('PROV-deferred-pause', pause, ok, '_pausing is set to the installed action', node=alias[0].ast if alias else c, kind='pausing-aliases-action')
         rets = [r for r in cfg.nodes if r.kind == 'return' and r.id in cfg.reachable([set_node], edge_ok=no_exc)]
@@ -327,7 +329,7 @@ def never_raise(chk: Check) -> None:
     # the pause future: every role that resolves it clears the attribute in the same region, so "is not None" means pending
     proc = prog.cls('processes.Process')
     roles = []
-    for f in proc.vmethods.values():
+    for f in proc.emethods.values():
         for s in writer_sites(chk.ctx, f, [PAUSED]):
             roles.append(s)
     chk.floor('FUT-pause-future', len(roles), 1)
